@@ -89,6 +89,8 @@ public:
     set(const XalanDOMString&   theString)
     {
         m_value = theString;
+
+        clearCachedNumberValue();
     }
 
     // These methods are inherited from XObject ...
